@@ -9,13 +9,19 @@ _H = _os.path.join(_os.path.dirname(_os.path.dirname(_os.path.abspath(__file__))
 # as absolute paths in `repo_srcs` (os.path.join(REPO, <absolute>) is the absolute path itself)
 HARNESS = {"src": "harness/c16.cpp", "repo_srcs": [_os.path.join(_H, f"c16_{p}.cpp") for p in "abcdefg"]}
 TIE = ("hand-written loop-level model (FcpptModel/Model/C16.lean) + differential correspondence against the real templates, "
-       "exhaustive over sequences over {0,1,2} up to length 6 for every function, source kind and parameter table")
+       "exhaustive over sequences over {0,1,2} up to length 6 for every function, source kind and parameter table, with the "
+       "dimensions aliasing (value / key / second container = part of the first argument, every position), value category of every "
+       "argument (probe element with a moved-from marker: result and every source afterwards), reference identity of returned "
+       "references, const / non-const instantiation, static arities, and all short histories of the map / index_map helpers")
 RULE = ("`d fn src params len` = digest over all 3^len sequences of one function/source/parameter table (weight 3^len); "
         "`dsplit`/`djoin`/`dm`/`dset` likewise for strings, string lists, maps and set pairs. Thorough: every predicate (8), value (3), "
         "function table (27), optional table (64), concat table (64), break table (8), relation (512), every applicable source kind "
         "(vector list deque forward_list set map array tuple mpl int_range enum_range), lengths 0..6, strings to length 7. "
         "Quick: the same parameter spaces up to length 5 (large tables sampled per seed), strings to length 5. "
         "Plus seeded samples of longer sequences (7..12), longer strings, sets over 0..9 and index_map histories. "
+        "Extension round: `…at` functions take the value from position i of the container itself; `vc…` functions take every argument as "
+        "const lvalue / lvalue / rvalue over probe elements and print result|sources afterwards; target 4 of `map` logs reserve(); "
+        "`atopt` indices 1000..1005 = 2^31, 2^32, 2^32+1, 2^63, 2^64-1, 2^33+2; `skip` = parameter not applicable to the sequence. "
         "An op is non-trivial unless its sequence/len is empty/0.")
 ASSUMPTIONS = [
     "std::vector/list/deque/forward_list = List; std::set/std::map = strictly sorted (association) list; iterators = positions",
@@ -23,7 +29,8 @@ ASSUMPTIONS = [
     "(remove_if/unique: the tail behind the returned position is an arbitrary `junk` parameter of the model)",
     "std::equal_range/lower_bound/upper_bound: modelled as the libstdc++ bisection loops (so that unsorted inputs correspond as well)",
     "callbacks are the table functions of the driver protocol; captured state is threaded explicitly",
-    "capacity is not observable: reserve only changes `Cont.cap`",
+    "capacity is not observable on std containers: reserve only changes `Cont.cap`, which is compared through a probe target that logs reserve()",
+    "a moved-from probe element is in the marker state 9 (copy leaves the source as it is); moved-from std containers are not inspected",
 ]
 TRUSTED = ["harness/c16.cpp and the digest/line protocol (vh.hpp, Proto.lean)",
            "g++ 12 + ASan/UBSan as witness for memory safety of the instantiations (erase during iteration, references into maps)"]
@@ -132,7 +139,7 @@ def fn_table():
         ("unique", [], SQ),
         ("uniqueif", [512], SQ),
         ("reverse", [], SQ),
-        ("seqiter", [8], SQ),
+        ("seqiter", [16], SQ),
         ("atopt", [15], ["v", "d", "a"]),
         ("amap", [27], ["a"]),
         ("apush", [3], ["a"]),
@@ -458,8 +465,12 @@ MANIFEST = {
                    "index_map growth, array::init index recursion): for all lists, tables and states the model equals the one-line List "
                    "specification (map, filterMap, flatMap, foldl, find?, idxOf?, filter, eraseReps, reverse, splitOn, intercalate, ...), visits "
                    "elements in order and stops at the documented element; join_strings inverts split_string; binary_search on sorted input "
-                   "finds the unique equivalent element. The model is tied to the code by a differential correspondence that is exhaustive over "
-                   "all sequences over {0,1,2} up to length 6 for every function, container kind and parameter table."),
+                   "finds the unique equivalent element and on arbitrary input terminates in bounds and only ever returns an equivalent element; "
+                   "lvalue sources are left untouched and rvalue sources are consumed element by element (map, container::join, array and tuple "
+                   "helpers, make, move_range); the remaining helpers of fcppt/algorithm and fcppt/container (equal, find_opt(_iterator), contains, "
+                   "insert, maybe_front/back, pop_front/back, size, data(_end), dynamic_array, output) equal their List specifications. "
+                   "The model is tied to the code by a differential correspondence that is exhaustive over all sequences over {0,1,2} up to "
+                   "length 6 for every function, container kind, parameter table, aliasing position and value category."),
     "level_note": ("Trusted: Lean kernel + propext/Classical.choice/Quot.sound; std algorithms/containers modelled by their specifications; "
                    "fidelity of the hand-written model outside the exercised inputs; harness and digest protocol. No sorry/axiom/native_decide."),
     "technique": "Lean 4 proof over hand-written executable model + exhaustive differential correspondence (ASan/UBSan harness)",
